@@ -1049,6 +1049,113 @@ fn corpus_job(cap: u64, viols: &mut Vec<Value>) -> Value {
            "transitions": st.transitions, "rewind_obligations": st.rewind_obligations, "largest": {"dfa_states": biggest.0, "lexer": biggest.1}})
 }
 
+// ------------------------------------------------------------------ shape signatures (selection of end-to-end representatives)
+
+/// A coarse description of an automaton's shape: "one input per shortcut visible in the code".
+fn signature(d: &Dump) -> String {
+    let n = d.states.len();
+    let targets = |st: &refmodel::dump::DState| -> Vec<Target> {
+        st.chars.iter().map(|(_, t)| t.clone()).chain(st.ranges.iter().map(|(_, _, t)| t.clone())).chain(st.any.iter().cloned()).chain(st.eoi.iter().cloned()).collect()
+    };
+    let succ = |i: usize| -> Vec<usize> { targets(&d.states[i]).into_iter().filter_map(|t| if let Target::State(j) = t { Some(j) } else { None }).collect() };
+    // states reachable from entry 0 without passing an accepting state ("cold")
+    let mut cold = vec![false; n];
+    let mut stack = vec![0usize];
+    cold[0] = true;
+    while let Some(i) = stack.pop() {
+        if !d.states[i].accepting.is_empty() {
+            continue;
+        }
+        for j in succ(i) {
+            if j < n && !cold[j] {
+                cold[j] = true;
+                stack.push(j);
+            }
+        }
+    }
+    let cold_backtrack = (0..n).filter(|&i| cold[i] && d.states[i].backtrack && d.states[i].accepting.is_empty()).count();
+    let warm_accept = d.states.iter().filter(|s| !s.accepting.is_empty() && !targets(s).is_empty()).count();
+    let ctx_only_accept = d.states.iter().filter(|s| !s.accepting.is_empty() && s.accepting.iter().all(|a| a.1.is_some())).count();
+    let multi_accept = d.states.iter().any(|s| s.accepting.len() > 1);
+    let joins = d.states.iter().filter(|s| s.preds.len() >= 2).count();
+    let inlined = d.states.iter().filter(|s| s.preds.len() == 1 && !s.initial).count();
+    // cycle detection
+    let mut color = vec![0u8; n];
+    fn dfs(i: usize, succ: &dyn Fn(usize) -> Vec<usize>, color: &mut Vec<u8>) -> bool {
+        color[i] = 1;
+        for j in succ(i) {
+            if j >= color.len() {
+                continue;
+            }
+            if color[j] == 1 || (color[j] == 0 && dfs(j, succ, color)) {
+                return true;
+            }
+        }
+        color[i] = 2;
+        false
+    }
+    let cycle = dfs(0, &succ, &mut color);
+    let self_loop = (0..n).any(|i| succ(i).contains(&i));
+    let mut mixes = std::collections::BTreeSet::new();
+    let mut overlap = false;
+    let mut acc_edges = std::collections::BTreeSet::new();
+    for st in &d.states {
+        let k = (!st.chars.is_empty(), !st.ranges.is_empty(), st.any.is_some());
+        mixes.insert(k);
+        for (c, t) in &st.chars {
+            if let Some((_, _, rt)) = st.ranges.iter().find(|(a, b, _)| a <= c && c <= b) {
+                if rt != t {
+                    overlap = true;
+                }
+            }
+            if matches!(t, Target::Accept(_)) {
+                acc_edges.insert("char");
+            }
+        }
+        for (_, _, t) in &st.ranges {
+            if matches!(t, Target::Accept(_)) {
+                acc_edges.insert("range");
+            }
+        }
+        if matches!(st.any, Some(Target::Accept(_))) {
+            acc_edges.insert("any");
+        }
+        if st.eoi.is_some() {
+            acc_edges.insert("eoi");
+        }
+    }
+    let bucket = |x: usize| match x {
+        0 => 0,
+        1 => 1,
+        2 => 2,
+        3..=4 => 3,
+        _ => 5,
+    };
+    format!(
+        "n{} cold_bt{} warm{} ctxonly{} multi{} joins{} inl{} cyc{} self{} mix{:?} ovl{} acc{:?}",
+        bucket(n), bucket(cold_backtrack), bucket(warm_accept), bucket(ctx_only_accept), multi_accept as u8, bucket(joins), bucket(inlined), cycle as u8, self_loop as u8, mixes, overlap as u8, acc_edges
+    )
+}
+
+/// First definition of a family for every distinct signature.
+fn signatures_job(family: &str, limit: usize) -> Value {
+    let fam = refmodel::families::p_family(family).unwrap_or_else(|| panic!("unknown family {family}"));
+    let mut seen: HashMap<String, usize> = HashMap::new();
+    let mut order: Vec<usize> = vec![];
+    for i in 0..fam.len.min(limit) {
+        let spec = (fam.get)(i);
+        let text = px_compile::lexer_text(&spec, "L");
+        let Ok(Ok(c)) = std::panic::catch_unwind(|| px_compile::compile_text(&text, false)) else { continue };
+        let Ok(d) = Dump::parse(&c.dump) else { continue };
+        let sig = signature(&d);
+        if !seen.contains_key(&sig) {
+            seen.insert(sig, i);
+            order.push(i);
+        }
+    }
+    json!({"family": family, "definitions": fam.len.min(limit), "signatures": order.len(), "indices": order})
+}
+
 // ------------------------------------------------------------------ interchangeability (C02)
 
 /// Equivalent regexes placed at every position of every context, beside a second rule: the two
@@ -1188,6 +1295,10 @@ pub fn main(a: &[String]) {
             json!({"regress": reg, "enumerated": e})
         }
         "builtins" => builtins_job(&mut viols),
+        "signatures" => {
+            let limit: usize = a.get(3).and_then(|s| s.parse().ok()).unwrap_or(usize::MAX);
+            signatures_job(&a[2], limit)
+        }
         "corpus" => {
             let cap: u64 = a.get(2).and_then(|s| s.parse().ok()).unwrap_or(300_000);
             corpus_job(cap, &mut viols)
